@@ -11,6 +11,7 @@ class Context:
     def __init__(self):
         self._cell_translations: Dict[str, str] = {}
         self._sub_cell_translations: Dict[str, List] = {}
+        self._cells_in_translation: set = set()
         self._titles: Dict[str, int] = {}
         self._sheets_size: List[Dict[str, int]] = []
 
